@@ -79,7 +79,20 @@ struct desc {
     bool (*expect)(struct st *, const uint8_t *in, size_t n, uint64_t seq, uint8_t *out, size_t *outn);
     bool attrs_change;          /* dictionary legitimately differs from the input's */
     bool needs_loop;            /* uses pumps: run the mock loop */
+    const struct nopt *opts;    /* numeric options with getter and setter (C20) */
+    int nopts;
+    bool flowdef_passthrough;   /* get_flow_def returns the definition that was set */
 };
+
+/* numeric option with a getter and a setter */
+struct nopt {
+    const char *name;
+    int (*set)(struct upipe *, uint64_t v);
+    int (*get)(struct upipe *, uint64_t *v);
+    uint64_t (*gen)(struct vh_rng *);
+    int (*valid)(uint64_t v);           /* 1 must be accepted, 0 must be rejected; NULL = always accepted */
+};
+#define MAXOPT 4
 
 #define MAXSUB 3
 struct st {
@@ -105,6 +118,10 @@ struct st {
     bool probe_drop;
     uint64_t setattr_seed; bool setattr_set;
     struct uref *setattr_dict;
+    uint64_t optv[MAXOPT];       /* shadow of numeric options (baseline read right after allocation) */
+    uint64_t flowdef_hash;       /* hash of the last accepted input flow definition */
+    uint64_t setflowdef_hash; bool setflowdef_set;
+    int (*genaux_fn)(struct uref *, uint64_t *);
     bool released;
     uint64_t next_seq;
     uint64_t inputs, outputs_expected;
@@ -150,24 +167,6 @@ static int match_seq(struct uref *uref, uint64_t min, uint64_t max)
     return (v >= min && v <= max) ? UBASE_ERR_NONE : UBASE_ERR_INVALID;
 }
 
-static void ctl_skip(struct st *s)
-{
-    uint64_t off = vh_below(R, 12);
-    OP("skip_set_offset(%" PRIu64 ")", off);
-    if (ubase_check(upipe_skip_set_offset(s->pipe, off))) s->skip_offset = off;
-}
-static void ctl_delay(struct st *s)
-{
-    int64_t d = vh_chance(R, 1, 4) ? 0 : vh_range(R, -1000, 100000);
-    OP("delay_set_delay(%" PRId64 ")", d);
-    if (ubase_check(upipe_delay_set_delay(s->pipe, d))) s->delay = d;
-}
-static void ctl_setrap(struct st *s)
-{
-    uint64_t rap = vh_chance(R, 1, 4) ? UINT64_MAX : vh_below(R, 1000);
-    OP("setrap_set_rap(%" PRIu64 ")", rap);
-    if (ubase_check(upipe_setrap_set_rap(s->pipe, rap))) s->rap = rap;
-}
 static void ctl_match(struct st *s)
 {
     uint64_t a = vh_below(R, 30), b = a + vh_below(R, 30);
@@ -209,67 +208,104 @@ static void ctl_setflowdef(struct st *s)
     uint64_t seed = vh_rand(R);
     struct uref *d = make_dict(seed);
     OP("setflowdef_set_dict(%" PRIx64 ")", seed & 0xffff);
-    upipe_setflowdef_set_dict(s->pipe, d);
+    if (ubase_check(upipe_setflowdef_set_dict(s->pipe, d))) { s->setflowdef_hash = lab_dict_hash(d); s->setflowdef_set = true; }
     uref_free(d);
-}
-static void ctl_agg(struct st *s)
-{
-    unsigned mtu = 1 + vh_below(R, 64);
-    OP("set_output_size(%u)", mtu);
-    upipe_set_output_size(s->pipe, mtu);
-}
-static void ctl_chunk(struct st *s)
-{
-    unsigned mtu = 1 + vh_below(R, 64), align = 1 + vh_below(R, mtu);
-    OP("chunk_stream_set_mtu(%u,%u)", mtu, align);
-    upipe_chunk_stream_set_mtu(s->pipe, mtu, align);
 }
 static void ctl_genaux(struct st *s)
 {
-    OP("genaux_set_getattr");
-    upipe_genaux_set_getattr(s->pipe, vh_chance(R, 1, 2) ? uref_clock_get_cr_sys : uref_clock_get_pts_sys);
+    int (*fn)(struct uref *, uint64_t *) = vh_chance(R, 1, 2) ? uref_clock_get_cr_sys : uref_clock_get_pts_sys;
+    OP("genaux_set_getattr(%s)", fn == uref_clock_get_cr_sys ? "cr_sys" : "pts_sys");
+    if (ubase_check(upipe_genaux_set_getattr(s->pipe, fn))) s->genaux_fn = fn;
 }
-static void ctl_time_limit(struct st *s)
+
+
+/* --- numeric options (C20) --- */
+#define SENTINEL UINT64_C(0xA5A5A5A55A5A5A5A)
+static int o_skip_set(struct upipe *u, uint64_t v) { return upipe_skip_set_offset(u, (size_t)v); }
+static int o_skip_get(struct upipe *u, uint64_t *v) { size_t o = (size_t)SENTINEL; int e = upipe_skip_get_offset(u, &o); *v = o; return e; }
+static uint64_t g_small(struct vh_rng *r) { return vh_below(r, 12); }
+static int o_delay_set(struct upipe *u, uint64_t v) { return upipe_delay_set_delay(u, (int64_t)v); }
+static int o_delay_get(struct upipe *u, uint64_t *v) { int64_t d = (int64_t)SENTINEL; int e = upipe_delay_get_delay(u, &d); *v = (uint64_t)d; return e; }
+static uint64_t g_delay(struct vh_rng *r) { return vh_chance(r, 1, 4) ? 0 : (uint64_t)vh_range(r, -1000, 100000); }
+static int o_rap_set(struct upipe *u, uint64_t v) { return upipe_setrap_set_rap(u, v); }
+static int o_rap_get(struct upipe *u, uint64_t *v) { *v = SENTINEL; return upipe_setrap_get_rap(u, v); }
+static uint64_t g_rap(struct vh_rng *r) { return vh_chance(r, 1, 4) ? UINT64_MAX : vh_below(r, 1000); }
+static int o_agg_set(struct upipe *u, uint64_t v) { return upipe_set_output_size(u, (unsigned)v); }
+static int o_agg_get(struct upipe *u, uint64_t *v) { unsigned o = (unsigned)SENTINEL; int e = upipe_get_output_size(u, &o); *v = o; return e; }
+static uint64_t g_mtu(struct vh_rng *r) { return 1 + vh_below(r, 64); }
+static int o_chunk_set(struct upipe *u, uint64_t v) { return upipe_chunk_stream_set_mtu(u, (unsigned)(v >> 32), (unsigned)v); }
+static int o_chunk_get(struct upipe *u, uint64_t *v) { unsigned m = (unsigned)SENTINEL, a = (unsigned)SENTINEL; int e = upipe_chunk_stream_get_mtu(u, &m, &a); *v = ((uint64_t)m << 32) | a; return e; }
+static uint64_t g_chunk(struct vh_rng *r) { uint64_t m = vh_below(r, 66), a = vh_chance(r, 1, 6) ? vh_below(r, 70) : (m ? vh_below(r, (uint32_t)m) + (vh_chance(r, 1, 8) ? 1 : 0) : 0); return (m << 32) | a; }
+static int v_chunk(uint64_t v) { uint64_t m = v >> 32, a = v & 0xffffffff; return !(m == 0 || a == 0 || a >= m); }
+static int o_tl_set(struct upipe *u, uint64_t v) { return upipe_time_limit_set_limit(u, v); }
+static int o_tl_get(struct upipe *u, uint64_t *v) { *v = SENTINEL; return upipe_time_limit_get_limit(u, v); }
+static uint64_t g_time(struct vh_rng *r) { return vh_below(r, 100000); }
+static int o_bmax_set(struct upipe *u, uint64_t v) { return upipe_buffer_set_max_size(u, v); }
+static int o_bmax_get(struct upipe *u, uint64_t *v) { *v = SENTINEL; return upipe_buffer_get_max_size(u, v); }
+static int o_blow_set(struct upipe *u, uint64_t v) { return upipe_buffer_set_low_limit(u, v); }
+static int o_blow_get(struct upipe *u, uint64_t *v) { *v = SENTINEL; return upipe_buffer_get_low_limit(u, v); }
+static int o_bhigh_set(struct upipe *u, uint64_t v) { return upipe_buffer_set_high_limit(u, v); }
+static int o_bhigh_get(struct upipe *u, uint64_t *v) { *v = SENTINEL; return upipe_buffer_get_high_limit(u, v); }
+static uint64_t g_bsize(struct vh_rng *r) { return 1 + vh_below(r, 4000); }
+static int o_rl_set(struct upipe *u, uint64_t v) { return upipe_rate_limit_set_limit(u, v); }
+static int o_rl_get(struct upipe *u, uint64_t *v) { *v = SENTINEL; return upipe_rate_limit_get_limit(u, v); }
+static uint64_t g_rl(struct vh_rng *r) { return 1 + vh_below(r, 100000); }
+static int o_rd_set(struct upipe *u, uint64_t v) { return upipe_rate_limit_set_duration(u, v); }
+static int o_rd_get(struct upipe *u, uint64_t *v) { *v = SENTINEL; return upipe_rate_limit_get_duration(u, v); }
+static uint64_t g_rd(struct vh_rng *r) { return 1 + vh_below(r, 1000000); }
+
+static const struct nopt opts_skip[] = { { "offset", o_skip_set, o_skip_get, g_small, NULL } };
+static const struct nopt opts_delay[] = { { "delay", o_delay_set, o_delay_get, g_delay, NULL } };
+static const struct nopt opts_setrap[] = { { "rap", o_rap_set, o_rap_get, g_rap, NULL } };
+static const struct nopt opts_agg[] = { { "output_size", o_agg_set, o_agg_get, g_mtu, NULL } };
+static const struct nopt opts_chunk[] = { { "mtu_align", o_chunk_set, o_chunk_get, g_chunk, v_chunk } };
+static const struct nopt opts_tl[] = { { "limit", o_tl_set, o_tl_get, g_time, NULL } };
+static const struct nopt opts_buffer[] = { { "max_size", o_bmax_set, o_bmax_get, g_bsize, NULL }, { "low", o_blow_set, o_blow_get, g_bsize, NULL }, { "high", o_bhigh_set, o_bhigh_get, g_bsize, NULL } };
+static const struct nopt opts_rl[] = { { "limit", o_rl_set, o_rl_get, g_rl, NULL }, { "duration", o_rd_set, o_rd_get, g_rd, NULL } };
+
+/* generic numeric option setter: keeps the shadow, judges acceptance */
+static void ctl_nopt(struct st *s)
 {
-    uint64_t l = vh_below(R, 100000);
-    OP("time_limit_set_limit(%" PRIu64 ")", l);
-    upipe_time_limit_set_limit(s->pipe, l);
-}
-static void ctl_buffer(struct st *s)
-{
-    uint64_t v = 1 + vh_below(R, 4000);
-    int w = vh_below(R, 3);
-    OP("buffer_set_%s(%" PRIu64 ")", w == 0 ? "max_size" : w == 1 ? "low" : "high", v);
-    if (w == 0) upipe_buffer_set_max_size(s->pipe, v);
-    else if (w == 1) upipe_buffer_set_low_limit(s->pipe, v);
-    else upipe_buffer_set_high_limit(s->pipe, v);
-}
-static void ctl_rate_limit(struct st *s)
-{
-    if (vh_chance(R, 1, 2)) { uint64_t v = 1 + vh_below(R, 100000); OP("rate_limit_set_limit(%" PRIu64 ")", v); upipe_rate_limit_set_limit(s->pipe, v); }
-    else { uint64_t v = 1 + vh_below(R, 1000000); OP("rate_limit_set_duration(%" PRIu64 ")", v); upipe_rate_limit_set_duration(s->pipe, v); }
+    const struct desc *d = s->d;
+    if (!d->nopts) return;
+    int k = vh_below(R, d->nopts);
+    const struct nopt *o = &d->opts[k];
+    uint64_t v = o->gen(R);
+    OP("%s.set_%s(%" PRIu64 ")", d->name, o->name, v);
+    int err = o->set(s->pipe, v);
+    int must = o->valid ? o->valid(v) : 1;
+    char key[96];
+    if (must == 1 && !ubase_check(err)) { snprintf(key, sizeof(key), "c20:%s:%s:valid-value-rejected", d->name, o->name); vh_violation(key, "%s returned %d", opname, err); }
+    if (must == 0 && ubase_check(err)) { snprintf(key, sizeof(key), "c20:%s:%s:invalid-value-accepted", d->name, o->name); vh_violation(key, "%s accepted", opname); }
+    if (ubase_check(err)) {
+        s->optv[k] = v;
+        if (d->opts == opts_skip) s->skip_offset = v;
+        if (d->opts == opts_delay) s->delay = (int64_t)v;
+        if (d->opts == opts_setrap) s->rap = v;
+        VH_COUNT("c20.setter_accepted");
+    } else VH_COUNT("c20.setter_rejected");
 }
 
 static const struct desc catalogue[] = {
-    { "idem", upipe_idem_mgr_alloc, K_IDENTITY, "block.", NULL, NULL, NULL, x_identity, false, false },
-    { "null", upipe_null_mgr_alloc, K_SINK, "block.", NULL, NULL, NULL, NULL, false, false },
-    { "skip", upipe_skip_mgr_alloc, K_TRANSFORM, "block.", "pic.", NULL, ctl_skip, x_skip, false, false },
-    { "htons", upipe_htons_mgr_alloc, K_TRANSFORM, "block.", "pic.", NULL, NULL, x_htons, false, false },
-    { "delay", upipe_delay_mgr_alloc, K_IDENTITY, "block.", NULL, NULL, ctl_delay, x_identity, false, false },
-    { "setattr", upipe_setattr_mgr_alloc, K_IDENTITY, "block.", NULL, NULL, ctl_setattr, x_identity, true, false },
-    { "setflowdef", upipe_setflowdef_mgr_alloc, K_IDENTITY, "block.", NULL, NULL, ctl_setflowdef, x_identity, false, false },
-    { "setrap", upipe_setrap_mgr_alloc, K_IDENTITY, "block.", NULL, NULL, ctl_setrap, x_identity, false, false },
-    { "match_attr", upipe_match_attr_mgr_alloc, K_FILTER, "block.", NULL, NULL, ctl_match, x_match, false, false },
-    { "probe_uref", upipe_probe_uref_mgr_alloc, K_FILTER, "block.", NULL, NULL, ctl_probe, x_probe, false, false },
-    { "nodemux", upipe_nodemux_mgr_alloc, K_IDENTITY, "block.", NULL, NULL, NULL, x_identity, false, false },
-    { "noclock", upipe_noclock_mgr_alloc, K_IDENTITY, "block.", NULL, NULL, NULL, x_identity, false, false },
-    { "dup", upipe_dup_mgr_alloc, K_DUP, "block.", NULL, NULL, NULL, x_identity, false, false },
-    { "aggregate", upipe_agg_mgr_alloc, K_REGROUP, "block.", "pic.", NULL, ctl_agg, NULL, false, false },
-    { "chunk_stream", upipe_chunk_stream_mgr_alloc, K_REGROUP, "block.", "pic.", NULL, ctl_chunk, NULL, false, false },
-    { "genaux", upipe_genaux_mgr_alloc, K_OTHER, "block.", NULL, NULL, ctl_genaux, NULL, true, false },
-    { "time_limit", upipe_time_limit_mgr_alloc, K_HOLD, "block.", NULL, NULL, ctl_time_limit, x_identity, false, true },
-    { "buffer", upipe_buffer_mgr_alloc, K_HOLD, "block.", "pic.", NULL, ctl_buffer, x_identity, false, true },
-    { "rate_limit", upipe_rate_limit_mgr_alloc, K_HOLD, "block.", NULL, NULL, ctl_rate_limit, x_identity, false, true },
+    { "idem", upipe_idem_mgr_alloc, K_IDENTITY, "block.", NULL, NULL, NULL, x_identity, false, false, NULL, 0, true },
+    { "null", upipe_null_mgr_alloc, K_SINK, "block.", NULL, NULL, NULL, NULL, false, false, NULL, 0, false },
+    { "skip", upipe_skip_mgr_alloc, K_TRANSFORM, "block.", "pic.", NULL, ctl_nopt, x_skip, false, false, opts_skip, 1, true },
+    { "htons", upipe_htons_mgr_alloc, K_TRANSFORM, "block.", "pic.", NULL, NULL, x_htons, false, false, NULL, 0, true },
+    { "delay", upipe_delay_mgr_alloc, K_IDENTITY, "block.", NULL, NULL, ctl_nopt, x_identity, false, false, opts_delay, 1, true },
+    { "setattr", upipe_setattr_mgr_alloc, K_IDENTITY, "block.", NULL, NULL, ctl_setattr, x_identity, true, false, NULL, 0, true },
+    { "setflowdef", upipe_setflowdef_mgr_alloc, K_IDENTITY, "block.", NULL, NULL, ctl_setflowdef, x_identity, false, false, NULL, 0, false },
+    { "setrap", upipe_setrap_mgr_alloc, K_IDENTITY, "block.", NULL, NULL, ctl_nopt, x_identity, false, false, opts_setrap, 1, true },
+    { "match_attr", upipe_match_attr_mgr_alloc, K_FILTER, "block.", NULL, NULL, ctl_match, x_match, false, false, NULL, 0, true },
+    { "probe_uref", upipe_probe_uref_mgr_alloc, K_FILTER, "block.", NULL, NULL, ctl_probe, x_probe, false, false, NULL, 0, true },
+    { "nodemux", upipe_nodemux_mgr_alloc, K_IDENTITY, "block.", NULL, NULL, NULL, x_identity, false, false, NULL, 0, true },
+    { "noclock", upipe_noclock_mgr_alloc, K_IDENTITY, "block.", NULL, NULL, NULL, x_identity, false, false, NULL, 0, true },
+    { "dup", upipe_dup_mgr_alloc, K_DUP, "block.", NULL, NULL, NULL, x_identity, false, false, NULL, 0, true },
+    { "aggregate", upipe_agg_mgr_alloc, K_REGROUP, "block.", "pic.", NULL, ctl_nopt, NULL, false, false, opts_agg, 1, false },
+    { "chunk_stream", upipe_chunk_stream_mgr_alloc, K_REGROUP, "block.", "pic.", NULL, ctl_nopt, NULL, false, false, opts_chunk, 1, true },
+    { "genaux", upipe_genaux_mgr_alloc, K_OTHER, "block.", NULL, NULL, ctl_genaux, NULL, true, false, NULL, 0, false },
+    { "time_limit", upipe_time_limit_mgr_alloc, K_HOLD, "block.", NULL, NULL, ctl_nopt, x_identity, false, true, opts_tl, 1, true },
+    { "buffer", upipe_buffer_mgr_alloc, K_HOLD, "block.", "pic.", NULL, ctl_nopt, x_identity, false, true, opts_buffer, 3, true },
+    { "rate_limit", upipe_rate_limit_mgr_alloc, K_HOLD, "block.", NULL, NULL, ctl_nopt, x_identity, false, true, opts_rl, 2, true },
 };
 #define NCAT (int)(sizeof(catalogue) / sizeof(catalogue[0]))
 
@@ -442,6 +478,7 @@ static void op_set_flow_def(struct st *s)
         vh_violation(key, "flow definition %s rejected (%d)", d->def, err); }
     s->flow_ok = true;
     s->cur_def_seed = seed;
+    { struct uref *fd2 = make_flow_def(d->def, seed); s->flowdef_hash = lab_dict_hash(fd2); uref_free(fd2); }
     VH_COUNT("op.set_flow_def");
 }
 
@@ -452,6 +489,7 @@ static void run_loop_some(struct st *s, unsigned max)
     if (n) VH_ADD("loop.dispatches", n);
 }
 
+static void ref_input(struct st *s, const uint8_t *b, size_t n);
 static void op_input(struct st *s)
 {
     if (!s->flow_ok || nin >= MAXIN) return;
@@ -462,6 +500,7 @@ static void op_input(struct st *s)
     int first_new = lab_ninputs;
     rec->connected = s->cur_out >= 0 && s->sink_accept[s->cur_out];
     rec->sink = s->cur_out >= 0 ? s->sink_ids[s->cur_out] : -1;
+    if (mode == MODE_C14 && s->d->klass == K_REGROUP) ref_input(s, rec->bytes, rec->n);
     upipe_input(s->pipe, u, NULL);
     s->inputs++;
     VH_COUNT("op.input");
@@ -500,14 +539,15 @@ static void op_sink_script(struct st *s)
     s->sink_accept[k] = acc;
 }
 
-static void op_flush(struct st *s)
+static bool op_flush(struct st *s)
 {
     OP("flush");
     lab_ev(EV_DRIVER, D_FLUSH, 0, 0, 0, NULL, "");
     lab_sink_burst = 0; lab_sink_burst_limit = 64 + 4 * 70000; lab_burst_pipe = s->d->name; lab_steps = 0; lab_step_limit = 4000000;
-    upipe_flush(s->pipe);
+    int err = upipe_flush(s->pipe);
     lab_sink_burst_limit = 0; lab_step_limit = 0;
     VH_COUNT("op.flush");
+    return ubase_check(err);
 }
 
 static void op_sub(struct st *s)
@@ -664,9 +704,143 @@ static void check_c05_async(struct st *s)
 /* case                                                                */
 /* ------------------------------------------------------------------ */
 static int only_pipe = -1;
+static bool with_getters;
+static struct vh_rng G;             /* getter sprinkling: independent of the history */
+
+/* --- C20: every getter of the descriptor, checked against the shadow --- */
+static void do_getters(struct st *s)
+{
+    const struct desc *d = s->d;
+    char key[96];
+    VH_COUNT("c20.getter_rounds");
+    for (int k = 0; k < d->nopts; k++) {
+        uint64_t v = SENTINEL;
+        int err = d->opts[k].get(s->pipe, &v);
+        if (!ubase_check(err)) { snprintf(key, sizeof(key), "c20:%s:%s:getter-failed", d->name, d->opts[k].name); vh_violation(key, "after %s: getter returned %d", opname, err); }
+        if (v != s->optv[k]) { snprintf(key, sizeof(key), "c20:%s:%s:getter-value", d->name, d->opts[k].name);
+            vh_violation(key, "after %s: getter returns %" PRIu64 " (0x%" PRIx64 "), last accepted value %" PRIu64, opname, v, v, s->optv[k]); }
+        VH_COUNT("c20.getter_checked");
+    }
+    /* generic pairs */
+    if (d->klass != K_SINK) {
+        struct upipe *out = (struct upipe *)(uintptr_t)SENTINEL;
+        int err = upipe_get_output(s->pipe, &out);
+        struct upipe *want = s->cur_out >= 0 ? s->sinks[s->cur_out] : NULL;
+        if (ubase_check(err) && out != want) { snprintf(key, sizeof(key), "c20:%s:output:getter-value", d->name); vh_violation(key, "after %s: get_output returns %p, last set %p", opname, (void *)out, (void *)want); }
+        if (ubase_check(err)) VH_COUNT("c20.getter_checked");
+        struct uref *fd = NULL;
+        err = upipe_get_flow_def(s->pipe, &fd);
+        if (ubase_check(err) && d->flowdef_passthrough && s->flow_ok) {
+            if (!fd || lab_dict_hash(fd) != s->flowdef_hash) { snprintf(key, sizeof(key), "c20:%s:flow_def:getter-value", d->name); vh_violation(key, "after %s: get_flow_def does not return the definition that was set", opname); }
+            VH_COUNT("c20.getter_checked");
+        }
+    }
+    if (!strcmp(d->name, "setattr")) {
+        struct uref *dict = (struct uref *)(uintptr_t)SENTINEL;
+        int err = upipe_setattr_get_dict(s->pipe, &dict);
+        if (!ubase_check(err)) vh_violation("c20:setattr:dict:getter-failed", "getter returned %d", err);
+        if (s->setattr_set && (!dict || lab_dict_hash(dict) != lab_dict_hash(s->setattr_dict)))
+            vh_violation("c20:setattr:dict:getter-value", "after %s: get_dict does not return the dictionary that was set", opname);
+        if (!s->setattr_set && dict != NULL) vh_violation("c20:setattr:dict:getter-value", "get_dict returns a dictionary although none was set");
+        VH_COUNT("c20.getter_checked");
+    }
+    if (!strcmp(d->name, "setflowdef")) {
+        struct uref *dict = (struct uref *)(uintptr_t)SENTINEL;
+        int err = upipe_setflowdef_get_dict(s->pipe, &dict);
+        if (!ubase_check(err)) vh_violation("c20:setflowdef:dict:getter-failed", "getter returned %d", err);
+        if (s->setflowdef_set && (!dict || lab_dict_hash(dict) != s->setflowdef_hash))
+            vh_violation("c20:setflowdef:dict:getter-value", "after %s: get_dict does not return the dictionary that was set", opname);
+        VH_COUNT("c20.getter_checked");
+    }
+    if (!strcmp(d->name, "genaux") && s->genaux_fn) {
+        int (*fn)(struct uref *, uint64_t *) = NULL;
+        int err = upipe_genaux_get_getattr(s->pipe, &fn);
+        if (!ubase_check(err) || fn != s->genaux_fn) vh_violation("c20:genaux:getattr:getter-value", "get_getattr does not return the function that was set");
+        VH_COUNT("c20.getter_checked");
+    }
+}
+
+/* --- C14: reference models of aggregation and fixed-size chunking --- */
+static uint8_t *stream_in; static size_t stream_in_n, stream_in_cap;       /* accepted octets, in order */
+static size_t *ref_units; static int ref_nunits, ref_units_cap;            /* expected output unit sizes */
+static size_t ref_pending;                                                   /* octets not yet emitted by the model */
+static uint64_t ref_mtu_window;
+
+static void ref_reset(void) { stream_in_n = 0; ref_nunits = 0; ref_pending = 0; ref_mtu_window = 0; }
+static void ref_emit(size_t n)
+{
+    if (!n) return;
+    if (ref_nunits == ref_units_cap) { ref_units_cap = ref_units_cap ? ref_units_cap * 2 : 256; ref_units = realloc(ref_units, sizeof(size_t) * ref_units_cap); }
+    ref_units[ref_nunits++] = n;
+    ref_pending -= n;
+}
+static void ref_accept(const uint8_t *b, size_t n)
+{
+    if (stream_in_n + n > stream_in_cap) { stream_in_cap = (stream_in_n + n) * 2; stream_in = realloc(stream_in, stream_in_cap); }
+    memcpy(stream_in + stream_in_n, b, n);
+    stream_in_n += n;
+    ref_pending += n;
+}
+static void ref_input(struct st *s, const uint8_t *b, size_t n)
+{
+    if (!strcmp(s->d->name, "aggregate")) {
+        size_t mtu = (size_t)s->optv[0];
+        if (n == 0 || n > mtu) return;                       /* documented: dropped with a warning */
+        if (ref_pending + n > mtu) ref_emit(ref_pending);
+        ref_accept(b, n);
+        if (ref_pending + n > mtu) ref_emit(ref_pending);   /* anticipates a next unit of the same size */
+    } else {
+        size_t mtu = (size_t)(s->optv[0] >> 32), align = (size_t)(s->optv[0] & 0xffffffff);
+        size_t size = mtu / align * align;
+        ref_accept(b, n);
+        while (ref_pending >= size) ref_emit(size);
+    }
+}
+static void ref_flush(struct st *s, bool release)
+{
+    if (!strcmp(s->d->name, "aggregate")) { if (release) ref_emit(ref_pending); return; }
+    size_t mtu = (size_t)(s->optv[0] >> 32), align = (size_t)(s->optv[0] & 0xffffffff);
+    size_t size = mtu / align * align;
+    while (ref_pending > 0) {
+        size_t n = ref_pending >= size ? size : ref_pending / align * align;
+        if (!n) break;
+        ref_emit(n);
+    }
+    /* the unaligned tail is dropped (documented) */
+    stream_in_n -= ref_pending;
+    ref_pending = 0;
+}
+
+static void check_c14(struct st *s)
+{
+    char key[96];
+    /* outputs at the (single, always accepting) sink */
+    { char b[400]; int o = 0; o += snprintf(b + o, sizeof(b) - o, "outputs:"); for (int i = 0; i < lab_ninputs && o < 380; i++) o += snprintf(b + o, sizeof(b) - o, " %zu", lab_inputs[i].size);
+      o += snprintf(b + o, sizeof(b) - o, " model:"); for (int i = 0; i < ref_nunits && o < 380; i++) o += snprintf(b + o, sizeof(b) - o, " %zu", ref_units[i]); vh_tr("%s", b); }
+    size_t pos = 0;
+    int u = 0;
+    for (int i = 0; i < lab_ninputs; i++) {
+        struct sink_input *o = &lab_inputs[i];
+        if (pos + o->size > stream_in_n || (o->copy && memcmp(o->copy, stream_in + pos, o->size))) {
+            snprintf(key, sizeof(key), "c14:%s:octets-not-from-input-in-order", s->d->name);
+            vh_violation(key, "output unit %d (%zu octets at stream position %zu of %zu accepted) is not the next octets of the input stream", i, o->size, pos, stream_in_n); }
+        if (u >= ref_nunits || ref_units[u] != o->size) {
+            snprintf(key, sizeof(key), "c14:%s:unit-size", s->d->name);
+            vh_violation(key, "output unit %d has %zu octets, the documented regrouping gives %zu (unit %d of %d)", i, o->size, u < ref_nunits ? ref_units[u] : (size_t)0, u, ref_nunits); }
+        pos += o->size; u++;
+        VH_COUNT("c14.units_checked");
+    }
+    if (u != ref_nunits || pos != stream_in_n) {
+        snprintf(key, sizeof(key), "c14:%s:octets-lost", s->d->name);
+        vh_violation(key, "%zu of %zu accepted octets were output in %d units, the documented regrouping gives %d units", pos, stream_in_n, u, ref_nunits); }
+}
+
+struct hist_out { int n; struct { int sink; uint64_t seq, hash; size_t size; } *o; int ndefs; uint64_t *defs; };
 
 static void teardown_and_account(struct st *s)
 {
+    bool c14 = mode == MODE_C14 && s->d->klass == K_REGROUP;
+    if (c14 && !s->released) ref_flush(s, true);
     release_pipe(s);
     for (int k = 0; k < s->nsubs; k++) if (s->subs[k]) { OP("sub%d.release(final)", k); upipe_release(s->subs[k]); s->subs[k] = NULL; }
     for (int k = 0; k < 4; k++) if (s->sinks[k]) { upipe_release(s->sinks[k]); s->sinks[k] = NULL; }
@@ -675,15 +849,20 @@ static void teardown_and_account(struct st *s)
     uref_free(s->setattr_dict); s->setattr_dict = NULL;
 }
 
-static void run_case(struct vh_rng *r)
+/* executes one seeded history on a fresh environment */
+static void exec_history(uint64_t seed, bool getters, struct hist_out *out)
 {
-    R = r;
-    case_hash = 0;
+    struct vh_rng hr;
+    vh_rng_seed(&hr, seed);
+    R = &hr;
+    vh_rng_seed(&G, seed ^ 0x1234567);
+    with_getters = getters;
     memset(&S, 0, sizeof(S));
     lab_nev = 0;
     lab_log_overflow = false;
     lab_inputs_reset();
     in_reset();
+    ref_reset();
     pooltrack_reset();
     lab_nprobes = 0;
     lab_probe_hook = probe_hook;
@@ -692,11 +871,14 @@ static void run_case(struct vh_rng *r)
     struct cumem_stats *cst = cumem_stats(E.umem);
 
     struct st *s = &S;
-    s->d = &catalogue[only_pipe >= 0 ? only_pipe : (int)vh_below(R, NCAT)];
+    int pick = only_pipe >= 0 ? only_pipe : (int)vh_below(R, NCAT);
+    if (mode == MODE_C14 && only_pipe < 0) { do pick = vh_below(R, NCAT); while (catalogue[pick].klass != K_REGROUP); }
+    if (mode == MODE_C20 && only_pipe < 0 && vh_chance(R, 3, 4)) { do pick = vh_below(R, NCAT); while (!catalogue[pick].nopts && strcmp(catalogue[pick].name, "setattr") && strcmp(catalogue[pick].name, "setflowdef") && strcmp(catalogue[pick].name, "genaux")); }
+    s->d = &catalogue[pick];
     s->cur_out = -1;
     s->rap = UINT64_MAX;
-    vh_tr("pipe=%s pool_depth=%d", s->d->name, depth);
-    vh_count_dyn("pipe.%s", s->d->name);
+    vh_tr("pipe=%s pool_depth=%d getters=%d", s->d->name, depth, getters);
+    if (!getters || mode != MODE_C20) vh_count_dyn("pipe.%s", s->d->name);
 
     struct upipe_mgr *mgr = s->d->mgr_alloc();
     s->pipe = upipe_void_alloc(mgr, lab_probe_new(s->d->name, &s->pipe_id));
@@ -704,11 +886,29 @@ static void run_case(struct vh_rng *r)
     if (!s->pipe) vh_violation("c04:alloc-failed", "allocation of %s failed", s->d->name);
     for (int k = 0; k < 4; k++) { char nm[16]; snprintf(nm, sizeof(nm), "sink%d", k); s->sinks[k] = lab_sink_new(nm, &s->sink_ids[k]); s->sink_accept[k] = true; }
     if (s->d->setup) s->d->setup(s);
+    /* baseline of the numeric options: the documented defaults as reported right after allocation */
+    for (int k = 0; k < s->d->nopts; k++) { uint64_t v = SENTINEL; s->d->opts[k].get(s->pipe, &v); s->optv[k] = v; }
+    if (s->d->opts == opts_skip) s->skip_offset = s->optv[0];
+    if (s->d->opts == opts_delay) s->delay = (int64_t)s->optv[0];
 
+    bool c14 = mode == MODE_C14 && s->d->klass == K_REGROUP;
+    if (c14) {
+        /* a single accepting sink for the whole history: the unit sequence is compared with the model */
+        op_set_flow_def(s);
+        while (!s->flow_ok) op_set_flow_def(s);
+        lab_ev(EV_DRIVER, D_SET_OUTPUT, s->sink_ids[0], s->pipe_id, 0, NULL, "");
+        upipe_set_output(s->pipe, s->sinks[0]);
+        s->cur_out = 0;
+    }
     int nops = 10 + vh_below(R, 30);
     for (int i = 0; i < nops && !s->released; i++) {
         int c = vh_below(R, 100);
-        if (c < 12) op_set_flow_def(s);
+        if (c14) {
+            if (c < 70) op_input(s);
+            else if (c < 85) { if (s->d->rand_ctl) s->d->rand_ctl(s); }
+            else if (c < 92) { if (op_flush(s)) ref_flush(s, false); }   /* only pipes that handle the flush command */
+            else if (c < 94) { ref_flush(s, true); release_pipe(s); }
+        } else if (c < 12) op_set_flow_def(s);
         else if (c < 55) op_input(s);
         else if (c < 67) op_set_output(s);
         else if (c < 72) op_sink_script(s);
@@ -718,13 +918,24 @@ static void run_case(struct vh_rng *r)
         else if (c < 98) { if (s->d->needs_loop) { OP("loop"); mockloop_advance(E.upump_mgr, vh_below(R, 200000)); run_loop_some(s, 50); } }
         else release_pipe(s);
         if (s->d->needs_loop && vh_chance(R, 1, 3)) run_loop_some(s, 20);
+        if (with_getters && !s->released && vh_chance(&G, 1, 2)) do_getters(s);
     }
+    if (mode == MODE_C20 && !s->released) do_getters(s);       /* final values, in both twins */
     teardown_and_account(s);
 
     if (lab_log_overflow) { VH_COUNT("case.log_overflow"); lab_probes_release(); lab_env_fini(); vh_skip_case(); }
     /* ---- oracles over the whole execution ---- */
     if (s->d->klass == K_HOLD) check_c05_async(s);
     check_c04(s);
+    if (c14) check_c14(s);
+    if (out) {
+        out->n = lab_ninputs;
+        out->o = malloc(sizeof(*out->o) * (lab_ninputs + 1));
+        for (int i = 0; i < lab_ninputs; i++) { out->o[i].sink = lab_inputs[i].sink; out->o[i].seq = lab_inputs[i].seq; out->o[i].hash = lab_inputs[i].payload_hash; out->o[i].size = lab_inputs[i].size; }
+        out->ndefs = 0;
+        out->defs = malloc(sizeof(uint64_t) * (lab_nev + 1));
+        for (int i = 0; i < lab_nev; i++) if (lab_log[i].kind == EV_SINK_FLOWDEF) out->defs[out->ndefs++] = lab_log[i].c * 4 + lab_log[i].a * 2 + lab_log[i].b;
+    }
 
     /* ---- C01 accounting ---- */
     lab_probes_release();
@@ -733,8 +944,6 @@ static void run_case(struct vh_rng *r)
     char key[96];
     if (live != 0) { snprintf(key, sizeof(key), "c01:%s:objects-still-held", s->d->name);
         vh_violation(key, "%ld pooled objects (urefs / buffers / dictionaries / pumps) are still held after the pipeline and all handles were released", live); }
-    struct cumem_stats cs_before = *cst; (void)cs_before;
-    /* the counting umem manager outlives the environment: keep a reference */
     struct umem_mgr *umem_keep = umem_mgr_use(E.umem);
     cst = cumem_stats(umem_keep);
     const char *bad_mgr = lab_env_fini();
@@ -745,7 +954,101 @@ static void run_case(struct vh_rng *r)
         vh_violation(key, "%ld umem blocks (%ld octets) still allocated after everything was released", (long)cst->live, (long)cst->live_bytes); }
     umem_mgr_release(umem_keep);
     VH_COUNT("c01.accounted_cases");
-    if (s->inputs >= 3) vh_nontrivial(case_hash);
+}
+
+/* C14 metamorphic check: the unit sequence of a stream re-chunker depends only
+ * on the byte stream, not on how it is cut into buffers */
+static void c14_cutting_case(struct vh_rng *r)
+{
+    R = r;
+    uint64_t opt = 0;
+    do opt = g_chunk(R); while (!v_chunk(opt));
+    size_t n = vh_chance(R, 1, 10) ? 0 : vh_below(R, 3000);
+    uint8_t *stream = malloc(n + 1);
+    for (size_t i = 0; i < n; i++) stream[i] = (uint8_t)vh_rand(R);
+    int ncut = 2 + vh_below(R, 3);
+    struct { int n; size_t *sz; uint64_t *h; } res[4];
+    vh_tr("cutting: chunk_stream mtu=%u align=%u stream=%zu cuttings=%d", (unsigned)(opt >> 32), (unsigned)opt, n, ncut);
+    for (int c = 0; c < ncut; c++) {
+        memset(&S, 0, sizeof(S));
+        lab_nev = 0; lab_log_overflow = false; lab_inputs_reset(); pooltrack_reset(); lab_nprobes = 0; lab_probe_hook = NULL;
+        lab_env_init(vh_below(R, 3));
+        struct upipe_mgr *mgr = upipe_chunk_stream_mgr_alloc();
+        int pid;
+        struct upipe *pipe = upipe_void_alloc(mgr, lab_probe_new("chunk_stream", &pid));
+        struct upipe *sink = lab_sink_new("sink0", NULL);
+        struct uref *fd = make_flow_def("block.", 1);
+        upipe_set_flow_def(pipe, fd); uref_free(fd);
+        upipe_set_output(pipe, sink);
+        if (!ubase_check(o_chunk_set(pipe, opt))) vh_violation("c20:chunk_stream:mtu_align:valid-value-rejected", "set_mtu rejected");
+        size_t pos = 0;
+        int style = vh_below(R, 4);
+        while (pos < n) {
+            size_t k = style == 0 ? 1 : style == 1 ? 1 + vh_below(R, 4) : style == 2 ? 1 + vh_below(R, 200) : 1 + vh_below(R, 1500);
+            if (vh_chance(R, 1, 12)) k = 0;
+            if (k > n - pos) k = n - pos;
+            struct uref *u = uref_block_alloc(E.uref_mgr, E.block_mgr, (int)k);
+            if (k) { uint8_t *w; int ws = -1; uref_block_write(u, 0, &ws, &w); memcpy(w, stream + pos, k); uref_block_unmap(u, 0); }
+            if (k > 3 && vh_chance(R, 1, 3)) { struct ubuf *t = ubuf_block_split(u->ubuf, 1 + vh_below(R, (uint32_t)k - 1)); if (t) ubuf_block_append(u->ubuf, t); }
+            upipe_input(pipe, u, NULL);
+            pos += k;
+            VH_COUNT("c14.cut_buffers");
+        }
+        lab_sink_burst = 0; lab_sink_burst_limit = 64 + 4 * 70000; lab_burst_pipe = "chunk_stream"; lab_steps = 0; lab_step_limit = 4000000;
+        upipe_release(pipe);
+        lab_sink_burst_limit = 0; lab_step_limit = 0;
+        upipe_release(sink);
+        res[c].n = lab_ninputs;
+        res[c].sz = malloc(sizeof(size_t) * (lab_ninputs + 1));
+        res[c].h = malloc(sizeof(uint64_t) * (lab_ninputs + 1));
+        size_t total = 0;
+        for (int i = 0; i < lab_ninputs; i++) {
+            res[c].sz[i] = lab_inputs[i].size; res[c].h[i] = lab_inputs[i].payload_hash;
+            if (total + lab_inputs[i].size > n || (lab_inputs[i].copy && memcmp(lab_inputs[i].copy, stream + total, lab_inputs[i].size)))
+                vh_violation("c14:chunk_stream:octets-not-from-input-in-order", "cutting %d: unit %d is not the next octets of the stream", c, i);
+            total += lab_inputs[i].size;
+        }
+        lab_probes_release();
+        lab_env_fini();
+        if (c > 0) {
+            bool same = res[c].n == res[0].n;
+            for (int i = 0; same && i < res[c].n; i++) same = res[c].sz[i] == res[0].sz[i] && res[c].h[i] == res[0].h[i];
+            if (!same) vh_violation("c14:chunk_stream:depends-on-cutting", "the same %zu-octet stream gives %d units under one cutting and %d under another (or different contents)", n, res[0].n, res[c].n);
+            VH_COUNT("c14.cuttings_compared");
+        }
+    }
+    for (int c = 0; c < ncut; c++) { free(res[c].sz); free(res[c].h); }
+    free(stream);
+    vh_nontrivial(vh_hash_mix(opt, n));
+}
+
+static void run_case(struct vh_rng *r)
+{
+    case_hash = 0;
+    if (mode == MODE_C14 && only_pipe < 0 && vh_chance(r, 1, 3)) { c14_cutting_case(r); if (vh_want_sample()) vh_sample("%s", vh_trace); return; }
+    uint64_t seed = vh_rand(r);
+    if (mode != MODE_C20) {
+        exec_history(seed, false, NULL);
+    } else {
+        /* differential twin run: same history with and without getters */
+        struct hist_out a = { 0 }, b = { 0 };
+        exec_history(seed, false, &a);
+        uint64_t h1 = case_hash;
+        case_hash = 0;
+        exec_history(seed, true, &b);
+        (void)h1;
+        const char *name = S.d->name;
+        char key[96];
+        bool same = a.n == b.n && a.ndefs == b.ndefs;
+        for (int i = 0; same && i < a.n; i++) same = a.o[i].sink == b.o[i].sink && a.o[i].seq == b.o[i].seq && a.o[i].hash == b.o[i].hash && a.o[i].size == b.o[i].size;
+        for (int i = 0; same && i < a.ndefs; i++) same = a.defs[i] == b.defs[i];
+        int na = a.n, nb = b.n;
+        free(a.o); free(b.o); free(a.defs); free(b.defs);
+        if (!same) { snprintf(key, sizeof(key), "c20:%s:getter-changes-behaviour", name);
+            vh_violation(key, "the same history delivers %d buffers without getters and %d with getters interleaved (or different contents / negotiations)", na, nb); }
+        VH_COUNT("c20.twin_runs_compared");
+    }
+    if (S.inputs >= 3) vh_nontrivial(case_hash);
     if (vh_want_sample()) vh_sample("%s", vh_trace);
 }
 
